@@ -49,7 +49,22 @@ func probe(addr string) bool {
 	return true
 }
 
+// runC12 runs the session; a "did not finish in time" verdict of a session
+// with a lingering client is only reported if an identical second session
+// shows it again (a time limit alone is not a verdict).
 func runC12(t testing.TB, c C12Case) (key, what string, classes map[string]int) {
+	key, what, classes = runC12once(t, c)
+	if key == "server-did-not-finish" && c.Linger {
+		k2, w2, _ := runC12once(t, c)
+		if k2 != key {
+			return "HARNESS", "the server did not finish in time once, but did in an identical second session: " + what + " / " + k2 + " " + w2, classes
+		}
+		what += " (confirmed by an identical second session)"
+	}
+	return key, what, classes
+}
+
+func runC12once(t testing.TB, c C12Case) (key, what string, classes map[string]int) {
 	classes = map[string]int{}
 	s, err := Start(Cfg{Listen: "127.0.0.1:0", OneShell: true, OchCap: c.OchCap})
 	if err != nil {
